@@ -1013,6 +1013,10 @@ struct ProbeSink
 using StaticRec = nl::record<nl::severity_attribute, nl::message_attribute, nl::timestamp_clock_attribute<std::chrono::steady_clock>>;
 using StaticL = nl::logger<StaticRec, ProbeFormatter, ProbeSink, StatefulFilter>;
 using StaticCfgFilter = nl::filter::severity_filter<StaticRec, 7>;
+template <typename R>
+using StaticCfgF = nl::filter::severity_filter<R, 7>;
+// a logger behind the threshold that StaticInitProbe configured before main()
+using StaticCfgL = nl::logger<StaticRec, ProbeFormatter, ProbeSink, StaticCfgF>;
 struct StaticInitProbe
 {
     StaticInitProbe()
